@@ -2,7 +2,7 @@
 fitted parameters."""
 import ast
 
-from sa.helpers import (mkflow, spec, code, one, calls, bind_call, param_env,
+from sa.helpers import (validated, unlicensed, the_return, mkflow, spec, code, one, calls, bind_call, param_env,
                         fmt, atom_of, unparse, walk_no_nested, unalloc)
 from sa.index import AnalysisError, FuncInfo
 from sa.algebra import RF, dotted
@@ -113,8 +113,8 @@ def mutators(ix, R):
                             why.append('slot %d (%s) becomes %s' % (k, layout[k], fmt(fl, x)))
                     elif not fl.tab.equal(x, fl.tab.atom('idx', (src, fl.tab.const(k)))):
                         why.append('slot %d (%s) is not passed through: %s' % (k, layout[k], fmt(fl, x)))
-            if [g for g in st.guards if not g.early] or st.loops:
-                why.append('store is conditional: %s' % [g.text() for g in st.guards if not g.early])
+            if [g for g in st.guards if not validated(g)] or st.loops:
+                why.append('store is conditional: %s' % [g.text() for g in st.guards if not validated(g)])
             R.check('5.slot', 'EFF', site,
                     '%s rewrites exactly slot %d (%s) of the tuple and passes the other %d through' % (
                         name, slot, layout[slot], len(layout) - 1),
@@ -212,7 +212,7 @@ def prior_table(ix, R):
                     sps = sp.params()
                     want_t = spec(sfl, 'self.%s[p]' % s, {'p': sfl.tab.name(sps[1])})
                     hit = [e for e in sfl.of('store') if sfl.tab.equal(e.target, want_t) and
-                           sfl.tab.equal(e.value, sfl.tab.name(sps[2])) and not [g for g in e.guards if not g.early]
+                           sfl.tab.equal(e.value, sfl.tab.name(sps[2])) and not [g for g in e.guards if not validated(g)]
                            and not e.loops]
                     if len(hit) != 1:
                         why.append('set_prior does not store the prior as self.%s[parameter] unconditionally' % s)
@@ -405,7 +405,7 @@ def compile_fn(ix, R):
         R.check('4.derived', 'ALG', site, 'derived list = tuples whose compute flag (slot 3) is set',
                 okd, key='derived selection', detail='derived appended under %s' % [g.text() for g in d.guards],
                 loc=f.loc(d.node))
-        r = one(fl.of('return'), 'return')
+        r = the_return(fl)
         okr = [unparse(x) for x in r.value_ast.elts][:2] == ['fitting_parameters', 'fitting_priors'] and \
             unparse(r.value_ast.elts[3]) == 'derived_parameters' and not r.guards and not r.loops
         ra = atom_of(fl, r.value)
@@ -491,7 +491,7 @@ def tuple_layout(ix, R):
             f = ix.func(site)
             fl = mkflow(ix, site)
             st = one(fl.of('store'), 'store')
-            bad = [g for g in st.guards if not g.early] or st.loops
+            bad = [g for g in st.guards if not validated(g)] or st.loops
             rs = fl.of('raise')
             R.check('8.def.uncond', 'DOM', site,
                     'the tuple is registered unless the name already exists, in which case the call raises',
